@@ -50,6 +50,65 @@ Theorem C20_alg_table_matches_registry : forall alg,
 Proof. exact alg_table_matches_registry. Qed.
 Print Assumptions C20_alg_table_matches_registry.
 
+(* the format strings and argument lists of every fmt.Sprintf of the digest computation are
+   regenerated from digest.go (Gen/DigestKernels.v); the model computes its hash inputs by
+   interpreting them (Model/Digest.v hash_input), and here: they spell the colon-separated
+   strings of RFC 7616 3.4.1-3.4.4 (A1, session A1, A2, userhash, response without / with qop) *)
+Theorem C20_source_formats_mean_rfc : forall user realm pass nonce cnonce qop method uri x a1 a2,
+  let env0 := [(bs "c.username", FS user); (bs "c.realm", FS realm); (bs "c.password", FS pass);
+               (bs "c.nonce", FS nonce); (bs "c.cNonce", FS cnonce); (bs "c.nc", FN 1);
+               (bs "c.messageQop", FS qop); (bs "c.method", FS method); (bs "c.digestURI", FS uri)] in
+  hash_input (bs "ha1#0") env0 = user ++ bs ":" ++ realm ++ bs ":" ++ pass /\
+  hash_input (bs "ha1#1") ((bs "ret", FS x) :: env0) = x ++ bs ":" ++ nonce ++ bs ":" ++ cnonce /\
+  hash_input (bs "ha2#0") env0 = method ++ bs ":" ++ uri /\
+  hash_input (bs "authorize#0") env0 = user ++ bs ":" ++ realm /\
+  hash_input (bs "resp#1") ((bs "ha1", FS a1) :: (bs "ha2", FS a2) :: env0) = a1 ++ bs ":" ++ nonce ++ bs ":" ++ a2 /\
+  hash_input (bs "kd#0") [(bs "secret", FS a1);
+     (bs "data", FS (hash_input (bs "resp#2") ((bs "ha1", FS a1) :: (bs "ha2", FS a2) :: env0)))] =
+    a1 ++ bs ":" ++ nonce ++ bs ":" ++ bs "00000001" ++ bs ":" ++ cnonce ++ bs ":" ++ qop ++ bs ":" ++ a2.
+Proof.
+  intros. subst env0. repeat split.
+  - exact (fmt_ha1 user realm pass nonce cnonce qop method uri).
+  - exact (fmt_ha1_sess user realm pass nonce cnonce qop method uri x).
+  - exact (fmt_ha2 user realm pass nonce cnonce qop method uri).
+  - exact (fmt_userhash user realm pass nonce cnonce qop method uri).
+  - exact (fmt_resp_noqop user realm pass nonce cnonce qop method uri a1 a2).
+  - exact (fmt_resp_qop user realm pass nonce cnonce qop method uri a1 a2).
+Qed.
+Print Assumptions C20_source_formats_mean_rfc.
+
+(* the `sl = append(sl, fmt.Sprintf(...))` lines of authorize(), in source order, write the
+   parameters of the model's build_fields - same names, same order, same quoting/escaping -
+   and the final Sprintf/Join the "Digest " prefix and ", " separator of render_fields *)
+Theorem C20_authorize_formats_as_modelled : forall u r n uri resp a o os q qs nc cn,
+  map (fun f => Some (fst f, fval_kind (snd f)))
+      (build_fields true u r n uri resp (Some a) (o :: os) (q :: qs) nc cn) =
+  map (fun name => match assoc_bytes name sprintf_calls with Some c => call_field c | None => None end)
+      [bs "authorize#1"; bs "authorize#2"; bs "authorize#3"; bs "authorize#4"; bs "authorize#5";
+       bs "authorize#6"; bs "authorize#7"; bs "authorize#8"; bs "authorize#9"; bs "authorize#10";
+       bs "authorize#11"] /\
+  assoc_bytes (bs "authorize#12") sprintf_calls = Some (bs "Digest %s", [bs "strings.Join(sl, "", "")"]) /\
+  assoc_bytes (bs "authorize#10") sprintf_calls = Some (bs "nc=%08x", [bs "c.nc"]).
+Proof. exact authorize_formats_as_modelled. Qed.
+Print Assumptions C20_authorize_formats_as_modelled.
+
+(* the string literals the source compares against are those of the model *)
+Theorem C20_source_literals_as_modelled :
+  assoc_bytes (bs "newCredentials#0:HasSuffix") string_tests = Some (bs "-sess") /\
+  assoc_bytes (bs "parseChallenge#0:HasPrefix") string_tests = Some (bs "Digest ") /\
+  assoc_bytes (bs "parseChallenge#1:strings.ToUpper(unquoteParam(r[1]))!=") string_tests = Some (bs "UTF-8") /\
+  assoc_bytes (bs "authorize#0:c.userhash==") string_tests = Some (bs "true") /\
+  assoc_bytes (bs "authorize#1:c.algorithm!=") string_tests = Some [] /\
+  assoc_bytes (bs "authorize#2:c.opaque!=") string_tests = Some [] /\
+  assoc_bytes (bs "authorize#3:c.messageQop!=") string_tests = Some [] /\
+  assoc_bytes (bs "validateQop#0:c.messageQop==") string_tests = Some [] /\
+  assoc_bytes (bs "validateQop#1:Split") string_tests = Some [comma] /\
+  assoc_bytes (bs "validateQop#2:strings.TrimSpace(qop)==") string_tests = Some (bs "auth") /\
+  map snd (filter (fun e => has_prefix (bs "escapeQuoted#") (fst e)) string_tests) =
+    [[bslash]; [bslash; bslash]; [dquote]; [bslash; dquote]].
+Proof. exact source_literals_as_modelled. Qed.
+Print Assumptions C20_source_literals_as_modelled.
+
 Theorem C20_sess_flag_matches_registry : forall alg f sess,
   rfc_registry alg = Some (f, sess) -> has_suffix (bs "-sess") alg = sess.
 Proof. exact sess_flag_matches. Qed.
